@@ -129,6 +129,32 @@ def straddle(W, r, stored):
     return out
 
 
+def py_sample(op, W, lo, hi, st):
+    """Exact-integer reference of the sampling law for the six ordinary entry points (patterns in, answer string out;
+    None when the request panics / runs out of stream).  Used only as the *pre-filter* of very long rejection runs (the
+    list-based Lean model needs ~10 s for a 64 000-word stream): a request whose crate answer equals this value is
+    accepted without evaluating the Lean model, every other one is judged by the Lean spec (check.py)."""
+    M = 1 << W
+    BY = W // 8
+    stored = op.startswith("uniform_new")
+    if not op.endswith("inclusive"):
+        if hi == lo:
+            return None
+        hi = (hi - 1) % M
+    r = (hi - lo + 1) % M
+    pos = 0
+    while pos + BY <= len(st):
+        v = int.from_bytes(st[pos:pos + BY], "little")
+        pos += BY
+        if r == 0:
+            return "S(%x)@%d" % (v, pos)
+        zone = M - 1 - (M % r) if (stored or W <= 16) else ((r << (W - r.bit_length())) - 1) % M
+        hp, lp = divmod(v * r, M)
+        if lp <= zone:
+            return "S(%x)@%d" % ((lo + hp) % M, pos)
+    return None
+
+
 def sampling_line(op, s, cfg, lo, hi, st):
     return f"{op} {s}{cfg} {hx(lo)} {hx(hi)} {st.hex() or '-'}"
 
@@ -271,7 +297,15 @@ def gen(rng, tier):
         M = 1 << W
         for s in "ui":
             lo_lim = -(M >> 1) if s == "i" else 0
-            for k in (1, 7, 63, 64, 65, 66, 127, 128, 129, 200):
+            # ... and 256, 1000, 65536 times: any bound on the number of retries is a bound the property does not have
+            # (added after seeded change C20-r7m1, a `MAX_REJECTIONS = 256` guard).  The very long runs only on the
+            # narrow types (the request carries k * BYTES stream bytes).
+            ks = (1, 7, 63, 64, 65, 66, 127, 128, 129, 200, 255, 256, 257, 300, 511, 512, 513, 1000, 1023, 1024, 1025)
+            ks += tuple(rng.sample((2047, 2048, 2049, 4095, 4096, 4097), 2))
+            if BY <= 3:
+                # pre-filtered by py_sample (third component of the case): see its docstring
+                ks += (65537,) + tuple(rng.sample((10000, 16384, 32767, 32768, 32769, 65535, 65536, 100000), 2))
+            for k in ks:
                 j = rng.randrange(1, W)
                 size = (1 << j) + rng.choice([1, 1, 2, 3])          # just above a power of two: ~half of all words rejected
                 lo = lo_lim + rng.choice([0, rng.randrange(0, M - size)])
@@ -279,6 +313,14 @@ def gen(rng, tier):
                 bw = boundary_words(rng, W, size)
                 for v in ([1] + bw[1:2] + bw[6:7]):
                     st = v.to_bytes(BY, "little") * k + stream(rng, BY, 2) + b"\x00" * BY
+                    if k * BY > 8000:
+                        if (v != 1 and s == "i") or (k * BY > 70000 and k not in (65537,)):
+                            continue                  # volume
+                        for line, tag in both_forms(rng, s, cfg, W, pat(lo, W), pat(hi, W), st, "rejection-run-long", INCL_OPS, EXCL_OPS):
+                            f = line.split(" ")
+                            exp = py_sample(f[0], W, int(f[2], 16), int(f[3], 16), st)
+                            yield (line, tag, exp) if exp is not None else (line, tag)
+                        continue
                     yield from both_forms(rng, s, cfg, W, pat(lo, W), pat(hi, W), st, "rejection-run-%d" % k,
                                           INCL_OPS, EXCL_OPS)
     reps = 100 if tier == "thorough" else 50
